@@ -8,6 +8,7 @@ pub mod c15;
 pub mod c19;
 pub mod c20;
 pub mod scen;
+pub mod tail;
 
 use crate::model::Violation;
 use crate::runner::Ctx;
@@ -23,6 +24,7 @@ pub fn run(ctx: &Ctx) -> i32 {
         "C08" => return c08::run(ctx),
         "C09" => return c09::run(ctx),
         "C10" => return c10::run(ctx),
+        "C12" | "C16" => return tail::run(ctx),
         "C13" => return c13::run_check(ctx),
         "C14" => return c14::run(ctx),
         "C15" => return c15::run(ctx),
@@ -56,6 +58,10 @@ pub fn replay(_ctx: &Ctx, kind: &str, input: &Value) -> Result<Vec<Violation>, S
         "c08-input" => {
             let inp: c08::Input = serde_json::from_value(input.clone()).map_err(|e| e.to_string())?;
             Ok(c08::replay(&inp))
+        }
+        "case-tail" => {
+            let case: crate::scenario::Case = serde_json::from_value(input.clone()).map_err(|e| e.to_string())?;
+            Ok(tail::replay(&case))
         }
         "c13-input" => {
             let inp: c13::Input = serde_json::from_value(input.clone()).map_err(|e| e.to_string())?;
